@@ -6,8 +6,8 @@ from record import Session
 from checks import check, TRACE_CFG, validate_sessions, RULE, count_sessions
 
 
-def mc_molfile_cfg(spec, family, emit, invs):
-    return (f"SPECIFICATION {spec}\nCONSTANTS Emit = {'TRUE' if emit else 'FALSE'} Family = \"{family}\"\n"
+def mc_molfile_cfg(spec, family, emit, invs, override=""):
+    return (f"SPECIFICATION {spec}\nCONSTANTS Emit = {'TRUE' if emit else 'FALSE'} Family = \"{family}\"\n" + override
             + "".join(f"INVARIANT {i}\n" for i in invs) + ("CONSTRAINT EmitText\n" if emit else "") + "CHECK_DEADLOCK FALSE\n")
 
 
@@ -100,6 +100,37 @@ def v3000_history_sessions(rng, tier, n):
     return ss
 
 
+def v3000_samepath_sessions(rng, tier):
+    """graph_from_file on one path whose content is replaced by another molfile of the same size with the same timestamps"""
+    import tempfile, os as _os
+    from tucan.io import graph_from_file
+    ss = []
+    for i in range(6 if tier == "quick" else 40):
+        M = textgen.abstract_molecule(rng, 5, pool=["C", "N", "O", "S"], coords=["0", "1.5"])
+        N = {"atoms": [dict(a) for a in M["atoms"]], "bonds": list(M["bonds"])}
+        k = rng.randrange(len(N["atoms"]))
+        N["atoms"][k]["sym"] = rng.choice([s for s in ["C", "N", "O", "S"] if s != N["atoms"][k]["sym"]])
+        seed = rng.random()
+        l1, _ = textgen.render_v3000(M, random.Random(seed), opts={"star": False, "cont": 0, "dt": False, "header": False})
+        l2, _ = textgen.render_v3000(N, random.Random(seed), opts={"star": False, "cont": 0, "dt": False, "header": False})
+        t1, t2 = "\n".join(l1) + "\n", "\n".join(l2) + "\n"
+        if len(t1) != len(t2):
+            continue
+        S = Session(f"v3samepath-{i}")
+        d = tempfile.mkdtemp(prefix="c07_")
+        p = _os.path.join(d, "current.mol")
+        try:
+            for text, lines, mol in ((t1, l1, M), (t2, l2, N)):
+                open(p, "w", newline="").write(text)
+                _os.utime(p, ns=(1_600_000_000_000_000_000, 1_600_000_000_000_000_000))
+                S.read(lines, "V3000", "C07", mol=textgen.mol_event(mol), floats=textgen.floats_of(mol), via_path=p)
+        finally:
+            import shutil
+            shutil.rmtree(d, ignore_errors=True)
+        ss.append(S)
+    return ss
+
+
 def v3000_hub_sessions(rng, tier):
     """multi-attachment bonds with ten and more endpoints"""
     ss = []
@@ -131,17 +162,30 @@ def permuted(M, perm):
     return {"atoms": atoms, "bonds": sorted(bonds)}
 
 
+def molfile_controls(out, which):
+    """the bounded models fail when the specification is given the pinned tree's reading (non-vacuity)"""
+    if which == "C07":
+        out.design("MC_Molfile", mc_molfile_cfg("Spec3", "small", False, ("DecodesBack",), override="  SubstringKeys <- TrueConst\n"), must_fail="DecodesBack",
+                   label="control: substring keyword match (EXACHG read as CHG)")
+    else:
+        out.design("MC_Molfile", mc_molfile_cfg("Spec2", "small", False, ("DecodesBack",), override="  ClearDTOnISO <- TrueConst\n"), must_fail="DecodesBack",
+                   label="control: M  ISO erases D / T masses")
+
+
 @check("C07")
 def c07(out, tier, rng):
     items = design_molfile(out, "Spec3", "small", emit=True)
     items += design_molfile(out, "Spec3", "cont", emit=True) if tier == "thorough" else []
     if tier == "quick":
         design_molfile(out, "Spec3", "cont")
+    else:
+        molfile_controls(out, "C07")
     out.extra["spec_to_code_inputs"] = len(items)
     ss = spec_text_sessions(items, "C07", rng, 700 if tier == "quick" else None)
     ss += v3000_random_sessions(rng, tier, 250 if tier == "quick" else 4000)
     ss += v3000_history_sessions(rng, tier, 15 if tier == "quick" else 150)
     ss += v3000_hub_sessions(rng, tier)
+    ss += v3000_samepath_sessions(rng, tier)
     ss += corpus_text_sessions("C07", tier, rng, 120 if tier == "quick" else 400)
     for s in ss:
         out.count(("c07", json.dumps(s.ev[0].get("lines", []))[:2000]), nontrivial=True)
@@ -230,6 +274,8 @@ def corpus_v2000_sessions(rng):
 @check("C08")
 def c08(out, tier, rng):
     items = design_molfile(out, "Spec2", "small", invs=("DecodesBack", "FormatsAgree"), emit=True)
+    if tier == "thorough":
+        molfile_controls(out, "C08")
     out.extra["spec_to_code_inputs"] = len(items)
     ss = spec_text_sessions(items, "C08", rng, 700 if tier == "quick" else None)
     ss += v2000_sessions(rng, tier, 200 if tier == "quick" else 3000)
@@ -368,6 +414,22 @@ def c09(out, tier, rng):
         if lines:
             fl = textgen.floats_from_lines(lines)
             rb = S.read(lines, "V3000", "C09", floats=fl)
+        ss.append(S)
+    # write - read - edit the graph that was read - read the first text again (the reader must answer from the text)
+    for i in range(10 if tier == "quick" else 100):
+        g = gen.random_molecule(rng, 6, label_p=0.3)
+        S = Session(f"c09-reread-{i}")
+        o = S.input(g)
+        lines = S.write(o)
+        if lines:
+            fl = textgen.floats_from_lines(lines)
+            rb = S.read(lines, "V3000", "C09", floats=fl)
+            if rb:
+                h = S.objs[rb]
+                a = rng.choice(list(h.nodes))
+                h.nodes[a]["mass"] = 3; h.nodes[a]["chg"] = -2
+                h.add_node(h.number_of_nodes(), element_symbol="O", atomic_number=8, partition=0, mass=18, rad=2)
+                S.read(lines, "V3000", "C09", floats=fl)
         ss.append(S)
     # labels need not be 0..n-1: wide (bond lines wrap too) and sparse (a fragment cut out of a larger graph) atom numbers
     import networkx as nx
